@@ -44,6 +44,17 @@
 using namespace photon;
 using namespace photon::fs;
 
+// Every operation allocates and frees exact-size blocks; with the default 256 MB quarantine each of them
+// touches fresh pages. Buffers are freed right after the operation that used them, so a small quarantine
+// loses nothing here. (ASAN_OPTIONS from the environment still override these defaults.)
+extern "C" const char* __asan_default_options() { return "quarantine_size_mb=8:allocator_release_to_os_interval_ms=-1"; }
+
+static void fill_random(vh::Rng& r, uint8_t* p, size_t n) {
+    size_t i = 0;
+    for (; i + 8 <= n; i += 8) { uint64_t v = r.next(); memcpy(p + i, &v, 8); }
+    if (i < n) { uint64_t v = r.next(); memcpy(p + i, &v, n - i); }
+}
+
 // ------------------------------------------------------------------ counters (child -> parent)
 enum Ctr {
     N_SEQ, N_OPS, N_READS, N_WRITES, N_VECTORED, N_ZERO_LEN, N_PAST_EOF, N_CLIPPED, N_SPAN3, N_SPAN2, N_VEC_CROSS,
@@ -199,13 +210,17 @@ static Config make_config(vh::Rng& r, int force_kind) {
     c.nops = (int)r.range(20, 120);
     switch (c.kind) {
     case K_ALIGNED: {
-        c.unit = r.pick<uint64_t>({8, 64, 512, 512, 4096, 4096, 4096, 16384, 65536});
+        c.unit = r.pick<uint64_t>({8, 64, 64, 512, 512, 512, 1024, 4096, 4096, 4096, 4096, 16384, 65536});
         c.align_mem = r.chance(1, 2);
         c.nfiles = 1;
         uint64_t blocks = c.unit >= 16384 ? r.range(1, 5) : r.range(1, 12);
         c.total = r.chance(1, 3) ? blocks * c.unit : r.range(1, blocks * c.unit);
         c.sizes = {c.total};
-        c.bigiov = r.chance(1, 24);
+        c.bigiov = r.chance(1, 100);
+        // more than 27 segments overflow the IOVector copy inside the aligned adaptor (known finding); without ASan that
+        // is silent stack corruption with arbitrary consequences, so only the asan flavor goes there
+        if (!vh::is_asan()) c.bigiov = false;
+        if (c.unit >= 16384) c.nops = (int)r.range(10, 40);
         break;
     }
     case K_LINFIX:
@@ -370,7 +385,7 @@ static void run_sequence(uint64_t xseed, uint64_t seq, int force_kind, bool& non
         f->index = i;
         f->fixed = c.kind != K_ALIGNED;
         f->data.resize(c.sizes[i]);
-        for (auto& b : f->data) b = (uint8_t)r.next();
+        fill_random(r, f->data.data(), f->data.size());
         S.under.push_back(f);
     }
     std::vector<IFile*> raw(S.under.begin(), S.under.end());
@@ -472,7 +487,7 @@ static void run_sequence(uint64_t xseed, uint64_t seq, int force_kind, bool& non
         std::vector<uint8_t> wdata;
         if (is_write(k)) {
             wdata.resize(len);
-            for (auto& b : wdata) b = (uint8_t)r.next();
+            fill_random(r, wdata.data(), wdata.size());
             uint64_t p = 0;
             for (auto& b : bufs) { if (b.len) memcpy(b.p, wdata.data() + p, b.len); p += b.len; }
         } else
@@ -550,13 +565,16 @@ static void run_sequence(uint64_t xseed, uint64_t seq, int force_kind, bool& non
         } else if (!is_write(k)) {
             uint64_t p = 0;
             for (auto& b : bufs) {
-                for (size_t i = 0; i < b.len && p < (uint64_t)ret; ++i, ++p)
-                    if (b.p[i] != S.ref[off + p]) {
-                        flag(kp + "data-mismatch", "a read through the adaptor returned other data than the same read on a plain file",
-                             mismatch_witness(S, seq, opi, opdesc, ret, exp, (int64_t)p, b.p[i], S.ref[off + p]));
-                        break;
-                    }
-                if (g_pending.set) break;
+                size_t n = std::min<uint64_t>(b.len, (uint64_t)ret - p);
+                if (n && memcmp(b.p, S.ref.data() + off + p, n))
+                    for (size_t i = 0; i < n; ++i)
+                        if (b.p[i] != S.ref[off + p + i]) {
+                            flag(kp + "data-mismatch", "a read through the adaptor returned other data than the same read on a plain file",
+                                 mismatch_witness(S, seq, opi, opdesc, ret, exp, (int64_t)(p + i), b.p[i], S.ref[off + p + i]));
+                            break;
+                        }
+                p += n;
+                if (g_pending.set || p >= (uint64_t)ret) break;
             }
         }
         if (is_write(k) && !g_pending.set) {
@@ -600,7 +618,7 @@ static void run_sequence(uint64_t xseed, uint64_t seq, int force_kind, bool& non
         if (ret != (ssize_t)n)
             flag(kp + "final-content-mismatch", "reading the whole file through the adaptor returned a wrong count",
                  vh::JObj().kv("sequence", seq).kv("config", c.str()).kv("returned", (int64_t)ret).kv("expected", (uint64_t)n).str());
-        else
+        else if (n && memcmp(b.p, S.ref.data(), n))
             for (size_t i = 0; i < n; ++i)
                 if (b.p[i] != S.ref[i]) {
                     flag(kp + "final-content-mismatch", "the content read through the adaptor differs from the plain file's after the same sequence",
@@ -612,7 +630,7 @@ static void run_sequence(uint64_t xseed, uint64_t seq, int force_kind, bool& non
         if (direct.size() != S.ref.size())
             flag(kp + "underlay-size-mismatch", "the underlying file(s) do not hold a file of the expected size",
                  vh::JObj().kv("sequence", seq).kv("config", c.str()).kv("size", (uint64_t)direct.size()).kv("expected", (uint64_t)S.ref.size()).str());
-        else
+        else if (direct != S.ref)
             for (size_t i = 0; i < direct.size(); ++i)
                 if (direct[i] != S.ref[i]) {
                     flag(kp + "underlay-content-mismatch", "the content of the underlying file(s), mapped by the composition rule, differs from the plain file's",
@@ -729,6 +747,10 @@ int main(int argc, char** argv) {
     mkdir(scratch.c_str(), 0755);
     int crashes = 0;
 
+    if (A.geti("nofork", 0)) {       // debugging aid: run in this process, results to stdout
+        child_main(dup(1), xseed, from, to, force_kind, "");
+        return 0;
+    }
     while (from < to) {
         int pfd[2];
         if (pipe(pfd) < 0) vh::machinery_failure("pipe failed");
